@@ -14,16 +14,29 @@ def hMatch : Handler := fun impl => do
   let host ← pBytes
   let uri ← pBytes
   let method ← pBytes
+  let method2 ← pBytes
   if ¬ rcs.all (·.valid) then return { model := "err:rules", label := "rules-rejected" }
   if ¬ parsed then return { model := "err:match", label := "unparsable" }
   let rs := rcs.map (·.rule)
   let q : Query := ⟨scheme, host, uri, method⟩
   let res := matchRules rs q
-  let model := s!"{showOptIdx res.proxy} {showOptIdx res.copy}"
+  let res2 := matchRules rs { q with method := method2 }
+  let model := s!"{showOptIdx res.proxy} {showOptIdx res.copy} {showOptIdx res2.proxy} {showOptIdx res2.copy} {showOptIdx res.proxy} {showOptIdx res.copy}"
   -- oracles on the implementation's choice: impl = [pi, pt, ci, ct]
   let idxOf (t : String) : Option Nat := match t.toInt? with | some (.ofNat i) => some i | _ => none
   let oracle :=
     match impl with
+    | [pi, _, ci, _, pi2, _, ci2, _, pi3, _, ci3, _] =>
+      let q2 : Query := { q with method := method2 }
+      let obsOf (p : String) : Spec.C01.Obs :=
+        match idxOf p with
+        | some i => { proxyRule := some i, status := 0 }
+        | none => { proxyRule := none, status := 404 }
+      let bad := (if Spec.C01.holds rs q (obsOf pi) && Spec.C01.holds rs q2 (obsOf pi2) && Spec.C01.holds rs q (obsOf pi3)
+                  then [] else ["bad:C01:not-first-matching-rule"]) ++
+                 (if Spec.C20.holdsChoice rs q (idxOf ci) && Spec.C20.holdsChoice rs q2 (idxOf ci2) && Spec.C20.holdsChoice rs q (idxOf ci3)
+                  then [] else ["bad:C20:copy-rule-not-first-before-proxy"])
+      if bad.isEmpty then "ok" else ",".intercalate bad
     | [pi, _, ci, _] =>
       let obs : Spec.C01.Obs :=
         match idxOf pi with
